@@ -158,6 +158,16 @@ CONTROLS = [
         rep(J, "                data ^= (data >> 63) & 1;\n                data ^= (data >> 60) & 1;\n                data ^= (data >> 55) & 1;\n                data ^= (data >> 30) & 1;\n                data ^= (data >> 27) & 1;\n                data ^= (data >> 22) & 1;\n",
             "                for tap in LFSR_TAPS.iter() {\n                    data ^= (data >> *tap) & 1;\n                }\n")), ["C12", "C15", "C19", "C14", "C18"]),
     ("fire", "S2f new unsafe block in lfsr_time", rep(J, "        black_box(throw_away);", "        let _ = unsafe { core::ptr::read_volatile(&throw_away) };"), ["C18"]),
+    ("silent", "S3 IsaacRng deserialize_with a forwarding helper", rep(IS, "pub struct IsaacRng(BlockRng<IsaacCore>);",
+        "pub struct IsaacRng(\n    #[cfg_attr(feature = \"serde\", serde(deserialize_with = \"read_block\"))] BlockRng<IsaacCore>,\n);\n\n#[cfg(feature = \"serde\")]\nfn read_block<'de, D>(de: D) -> Result<BlockRng<IsaacCore>, D::Error>\nwhere\n    D: serde::Deserializer<'de>,\n{\n    BlockRng::<IsaacCore>::deserialize(de)\n}"), ["C11"]),
+    ("fire", "S3f IsaacCore.b deserialize_with clears the low bit", rep(IS, "    a: w32,\n    b: w32,\n    c: w32,\n}\n\n// Custom Debug",
+        "    a: w32,\n    #[cfg_attr(feature = \"serde\", serde(deserialize_with = \"read_b\"))]\n    b: w32,\n    c: w32,\n}\n\n#[cfg(feature = \"serde\")]\nfn read_b<'de, D>(de: D) -> Result<w32, D::Error>\nwhere\n    D: serde::Deserializer<'de>,\n{\n    let v = w32::deserialize(de)?;\n    Ok(w(v.0 & !1))\n}\n\n// Custom Debug"), ["C11"]),
+    ("fire", "S3f IsaacCore.mem serialize_with writes 255 elements", rep(IS, "        serde(with = \"super::isaac_array::isaac_array_serde\")\n    )]\n    mem: [w32; RAND_SIZE],",
+        "        serde(serialize_with = \"write_mem\", deserialize_with = \"super::isaac_array::isaac_array_serde::deserialize\")\n    )]\n    mem: [w32; RAND_SIZE],", 1) if False else seq(
+        rep(IS, "        serde(with = \"super::isaac_array::isaac_array_serde\")\n    )]\n    mem: [w32; RAND_SIZE],",
+            "        serde(serialize_with = \"write_mem\", deserialize_with = \"super::isaac_array::isaac_array_serde::deserialize\")\n    )]\n    mem: [w32; RAND_SIZE],"),
+        rep(IS, "// Custom Debug implementation that does not expose the internal state\nimpl fmt::Debug for IsaacCore {",
+            "#[cfg(feature = \"serde\")]\nfn write_mem<S: serde::Serializer>(arr: &[w32; RAND_SIZE], ser: S) -> Result<S::Ok, S::Error> {\n    use serde::ser::SerializeTuple;\n    let mut seq = ser.serialize_tuple(RAND_SIZE)?;\n    for e in arr.iter().skip(1) {\n        seq.serialize_element(e)?;\n    }\n    seq.serialize_element(&arr[0])?;\n    seq.end()\n}\n\n// Custom Debug implementation that does not expose the internal state\nimpl fmt::Debug for IsaacCore {")), ["C11"]),
     ("silent", "S2 xoshiro256++ state accessor added", rep(X + "xoshiro256plusplus.rs", "impl Xoshiro256PlusPlus {\n", "impl Xoshiro256PlusPlus {\n    /// Number of state words.\n    pub fn state_words(&self) -> usize {\n        self.s.len()\n    }\n\n"), ["C14", "C19", "C18", "C10"]),
 ]
 
